@@ -1,16 +1,12 @@
 /-
-C18 — property theorems, part 1: <cctype>, <cwctype>, div/labs (part 2, strings: `Props.lean`).
+C18 — property theorems, part 1: <cctype> and <cwctype> over the hand model (part 2, strings: `Props.lean`;
+part 3, div/labs/llabs: `PropsDiv.lean`; part 4, footprints: `PropsFootprint.lean`; the same statements over
+the model generated from the headers: `PropsGen.lean`, `PropsGenW.lean`).
 
 * `<cctype>`: each function equals the "C"-locale table on the complete domain [-1, 255]
   (kernel `decide` over all 257 arguments: a finite complete domain, hence a proof).
 * `<cwctype>`: each function equals the table for *every* `wint_t` (all naturals): finite check
   below 128, range reasoning above.
-* `<cstring>` / `<cwchar>`: for every allocation, offset and count satisfying the C preconditions
-  (written as the decidable predicates `Spec.Terminated`, `Spec.ReadableN` and a room inequality,
-  the same ones the generator of `checks/props/c18.py` uses) the model returns `.ok` — no read or
-  write outside an allocation, no fuel exhaustion — of exactly the ISO C result; for the writers
-  the whole destination allocation is `Spec.splice …`, i.e. every unit outside the extent C
-  defines is unchanged.
 -/
 import TetlProofs.C18.LemmasCtype
 namespace Tetl.C18.Props
